@@ -439,6 +439,12 @@ class StreamableHTTPTransport(Transport):
         try:
             from chuk_mcp.protocol.messages.json_rpc_message import JSONRPCMessage
 
+            # A JSON array is a batch: route every member in order
+            if isinstance(response_data, list):
+                for item in response_data:
+                    await self._route_response(item)
+                return
+
             # Create JSON-RPC message
             message = JSONRPCMessage.model_validate(response_data)  # type: ignore[attr-defined]
 
